@@ -7,12 +7,16 @@ repo = os.environ.get('VERIF_REPO', '/repo')
 env = dict(os.environ, GOFLAGS='-mod=mod', GOPROXY='off', GOSUMDB='off', GOTOOLCHAIN='local')
 modcache = subprocess.check_output(['go', 'env', 'GOMODCACHE'], env=env, text=True).strip()
 os.makedirs(V + '/build', exist_ok=True)
+# A tree other than /repo (a scratch worktree with a seeded change applied) gets its own overlay,
+# go.mod copy and a harness module file whose replace directive points at it.
+import hashlib
+tag = '' if repo == '/repo' else '-' + hashlib.md5(repo.encode()).hexdigest()[:8]
 gm = open(repo + '/go.mod').read()
 gm2, n = re.subn(r'(?m)^go\s+\d+\.\d+(\.\d+)?\s*$', 'go 1.21', gm)
 if n != 1:
     gm2 = gm + '\ngo 1.21\n'
-tmp = V + '/build/repo.go.mod.tmp%d' % os.getpid()
-dst = V + '/build/repo.go.mod'
+tmp = V + '/build/repo%s.go.mod.tmp%d' % (tag, os.getpid())
+dst = V + '/build/repo%s.go.mod' % tag
 if not os.path.exists(dst) or open(dst).read() != gm2:
     open(tmp, 'w').write(gm2); os.replace(tmp, dst)
 base = modcache + '/github.com/grailbio/base@v0.0.9'
@@ -26,6 +30,17 @@ ov = {'Replace': {
     bm + '/rpc/client.go': V + '/shim/bigmachine_rpc_client.go',
 }}
 s = json.dumps(ov, indent=1)
-p = V + '/build/overlay.json'
+p = V + '/build/overlay%s.json' % tag
 if not os.path.exists(p) or open(p).read() != s:
     t = p + '.tmp%d' % os.getpid(); open(t, 'w').write(s); os.replace(t, p)
+
+if tag:
+    hm = open(V + '/harness/go.mod').read().replace('=> /repo', '=> ' + repo)
+    mp = V + '/build/harness%s.mod' % tag
+    if not os.path.exists(mp) or open(mp).read() != hm:
+        t = mp + '.tmp%d' % os.getpid(); open(t, 'w').write(hm); os.replace(t, mp)
+    sp = V + '/build/harness%s.sum' % tag
+    hs = open(V + '/harness/go.sum').read()
+    if not os.path.exists(sp) or open(sp).read() != hs:
+        t = sp + '.tmp%d' % os.getpid(); open(t, 'w').write(hs); os.replace(t, sp)
+print(tag)
